@@ -313,6 +313,11 @@ func countBad(roots []ast.Node) (wrappers, badNodes int) {
 func checkErrorContract(e *Entry, s string, res ParseResult) map[string]string {
 	viol := map[string]string{}
 	if res.Panic != nil {
+		// a panic while the error's Position is being resolved: the error was raised with a range outside the
+		// input, so the element "with 0 <= Pos <= End <= len(input)" is never delivered (other panics: C03)
+		if strings.Contains(res.Stack, "token.(*File).Position") || strings.Contains(res.Stack, "token.(*File).ResolvePos") {
+			viol["C09/error-position-panics/"+e.Name] = fmt.Sprintf("%s(%q): resolving the position of an error panics: %v", e.Name, s, res.Panic)
+		}
 		return viol
 	}
 	wr, bn := countBad(res.Roots)
